@@ -408,6 +408,9 @@ struct VfLogger : M::LoggerInterface {
         L.append('%s signed char* vf_activity_raw(VfInst* m) { return &m->v._activityHistory[0]; }' % W)
         L.append('%s unsigned char* vf_structure_active_raw(VfInst* m, unsigned i) { return reinterpret_cast<unsigned char*>(&m->v._structure[i].isActive); }' % W)
     if plans:
+        # update() without its final processRequest(): the update phases and the plan processing run on the real code, the
+        # requests they issue stay in the queue for inspection (drives the plan executor as a unit)
+        L.append('%s void vf_update_plans_only(VfInst* m) { typename Inst::TransitionSets empty; typename Inst::FullControl control{m->v._core, empty}; m->v._apex.deepPreUpdate(control); m->v._apex.deepUpdate(control); m->v._apex.deepPostUpdate(control); m->v._apex.deepUpdatePlans(control); m->v._core.planData.clearStatuses(); }' % W)
         L.append('%s int vf_plan_append(VfInst* m, unsigned region, unsigned o, unsigned d, unsigned kind) { auto p = m->v.plan((hfsm2::RegionID)region); const hfsm2::StateID O = (hfsm2::StateID)o, D = (hfsm2::StateID)d; switch (kind) {' % W)
         pn = {1: 'change', 2: 'restart', 3: 'resume', 4: 'select', 5: 'utilize', 6: 'randomize', 7: 'schedule'}
         for k in range(1, 8):
